@@ -247,13 +247,15 @@ func init() {
 	}
 	jobTable["C07"] = jobSet{
 		quick: []Job{
-			{Scenario: "inject/N=2", Budgets: bs(B(0, 1)), Split: 1},
+			{Scenario: "inject/N=2/k=4", Budgets: bs(B(0, 1)), Split: 1},
+			{Scenario: "inject/N=1/k=3", Budgets: bs(B(0, 1)), Split: 1},
 			{Scenario: "synN(all 256 window bytes)", Scenarios: synNBatch(), Budgets: bs(B(0, 0))},
 		},
 		thorough: []Job{
-			{Scenario: "inject/N=2", Budgets: bs(B(1, 1)), Split: 2},
-			{Scenario: "inject/N=1", Budgets: bs(B(0, 1)), Split: 1},
-			{Scenario: "inject/N=20", Budgets: bs(B(0, 1)), Split: 1},
+			{Scenario: "inject/N=2/k=4", Budgets: bs(B(1, 1)), Split: 2},
+			{Scenario: "inject/N=1/k=3", Budgets: bs(B(1, 1)), Split: 2},
+			{Scenario: "inject/N=3/k=6", Budgets: bs(B(0, 1)), Split: 1},
+			{Scenario: "inject/N=20/k=3", Budgets: bs(B(0, 1)), Split: 1},
 			{Scenario: "synN(all 256 window bytes)", Scenarios: synNBatch(), Budgets: bs(B(1, 0)), Split: 1},
 		},
 		quickS: 240, thoroughS: 1200,
